@@ -4,7 +4,7 @@ import os, sys, json, time
 import vlib, corr, gen
 from vlib import proof_status, corr_run, iter_real, case_script, finish, proof_violation, corr_violations
 
-QUICK_SUITES = ['basic', 'chain', 'env', 'fault', 'rand', 'chunk']
+QUICK_SUITES = ['basic', 'chain', 'env', 'fault', 'rand', 'chunk', 'pair']
 THOROUGH_SUITES = QUICK_SUITES + ['pairs', 'faultdense']
 
 def suites_for(tier):
@@ -298,12 +298,32 @@ WIRE = {
 }
 PROPNUM = {'C%02d' % i: i for i in range(1, 19)}
 
+_REAL_CACHE = {}
+def refresh_origin(f):
+    path = f['script_path'][:-len('.script')] + '.real'
+    if path not in _REAL_CACHE:
+        try:
+            _REAL_CACHE[path] = corr.parse_out(open(path).read())
+        except OSError:
+            _REAL_CACHE[path] = {}
+    ops = _REAL_CACHE[path].get(f['case'], [])
+    trig = 'C 20' if corr.BY_NAME[f['panel']].family == 'ssd' else 'C 12'
+    for (i, name, lines, res) in reversed([o for o in ops if o[0] < f['opidx']]):
+        if any(l == trig or l.startswith(trig + ' ') for l in lines):
+            return name
+    return 'the same call'
+
 def oracle_violations(prop, orc):
     viol = []
     for f in orc['fails']:
         if f['prop'] != prop:
             continue
-        viol.append(dict(panel=f['panel'], site=f['op'], clause=f['clause'],
+        extra = {}
+        if prop == 'C05':
+            # the busy discipline is about PAIRS of calls: the class of a C05 failure is the earlier call that
+            # started the refresh still pending (the last earlier call of the case that sent a refresh trigger)
+            extra['class'] = 'refresh started by ' + refresh_origin(f)
+        viol.append(dict(panel=f['panel'], site=f['op'], clause=f['clause'], **extra,
                          detail="real trace of %s (case %s, call #%d, features %s) judged by the extracted observer" % (f['op'], f['case'], f['opidx'], f['feat']),
                          replay=dict(kind='oracle', panel=f['panel'], feat=f['feat'], case=f['case'], op_index=f['opidx'], op=f['op'],
                                      clause=f['clause'], script=oracle_mod.case_text(f['script_path'], f['case']))))
@@ -380,7 +400,9 @@ STD_ASSUME = ["theorems are about the driver models (Drv/*.v) run against the co
               "controller semantics, busy polarity, deep-sleep codes and command tables are specifications written from datasheet knowledge (DESIGN.md App. B)"]
 
 def check_C02(tier, seed, t0):
-    return wire_check('C02', tier, seed, t0, STD_ASSUME)
+    return wire_check('C02', tier, seed, t0, STD_ASSUME + [
+        "Properties/C02w.v ('havoc'): for epd1in54, epd1in54_v2, epd2in9, epd2in7_v2, epd2in13_v2 (all feature variants) update_frame / update_and_display_frame / clear_frame are correct from EVERY controller state with entry mode 3 and no open frame - window and counter registers universally quantified -; for epd4in2 (x < 256), epd1in02, epd2in7: any aligned partial update followed by a full update is correct; the state hypotheses are checked on every state of the closed reachable sets; refuted for epd2in9b_v4 and epd2in9_v2 (the known findings)"],
+        extra_files=['Properties/C02w.v'])
 def check_C07(tier, seed, t0):
     return wire_check('C07', tier, seed, t0, STD_ASSUME)
 def check_C08(tier, seed, t0):
